@@ -42,6 +42,9 @@ def shards(tier: str, seed: int) -> list:
     step = 8
     for lo in range(1, b["series_max"] + 1, step):
         out.append({"kind": "series", "lo": lo, "hi": min(lo + step - 1, b["series_max"])})
+    # sample counts around powers of ten: the .inf file stores the count as text
+    for n in (99999, 100000, 999999, 1000000, 1234567) + ((16777217,) if tier == "thorough" else ()):
+        out.append({"kind": "series", "lo": n, "hi": n, "big": True})
     return out
 
 
@@ -224,7 +227,7 @@ def _series(wd, shard, ctx, res, only):
     from sigpyproc.header import Header
     from sigpyproc.timeseries import TimeSeries
 
-    cases = [[n, vc] for n in range(shard["lo"], shard["hi"] + 1) for vc in ("ramp", "const", "huge")]
+    cases = [[n, vc] for n in range(shard["lo"], shard["hi"] + 1) for vc in (("ramp",) if shard.get("big") else ("ramp", "const", "huge"))]
     if only is not None:
         cases = [only]
     metas = [(0.000256, 58123.456789012345, 56.78125), (64e-6, 60000.000000001, 0.0), (1e-3 / 3, 50000.999999999, 1234.56789012),
